@@ -250,9 +250,9 @@ theorem wrapPositional_readv_zero {s : State} {fd : Int} {ino pos : Nat} {acc : 
   unfold State.readv
   rw [if_pos hl, h2.ofd?, pread_file h, hl]
   cases hr : acc.canRead
-  · simp only [Bool.not_false, ↓reduceIte, Bool.false_eq_true]
+  · simp only [hr, Bool.not_false, ↓reduceIte, Bool.false_eq_true]
     rw [lseek_set h2 pos h.posOk, setOfd_setOfd, h.setOfd_self]
-  · simp only [Bool.not_true, Bool.false_eq_true, ↓reduceIte]
+  · simp only [hr, Bool.not_true, Bool.false_eq_true, ↓reduceIte]
     rw [lseek_set h2 pos h.posOk, setOfd_setOfd, h.setOfd_self]
     simp [File.read]
 
